@@ -376,6 +376,17 @@ func (w *JWorld) Open(c *simrt.Chooser, doc *JDoc) J {
 func (w *JWorld) Change(c *simrt.Chooser, doc *JDoc) (J, string) {
 	old := doc.Text
 	doc.LSPVer++
+	if len(doc.History) >= 2 && c.Pct("undo", 12) {
+		// undo: back to the exact text of the version before
+		m := doc.History[len(doc.History)-2]
+		if doc.Versions[m] != "" && m != doc.Marker {
+			doc.Marker = m
+			doc.History = append(doc.History, m)
+			doc.Text, doc.Lines = doc.Versions[m], doc.VerLines[m]
+			doc.Includes = append([]string(nil), doc.VerIncs[m]...)
+			return J{"textDocument": J{"uri": doc.URI, "version": doc.LSPVer}, "contentChanges": []J{{"text": doc.Text}}}, fmt.Sprintf("undo to the text of v%d", m)
+		}
+	}
 	text := w.NextVersion(c, doc)
 	var changes []J
 	how := ""
